@@ -116,3 +116,5 @@ func EVMContext(origin common.Address, height uint64, gasLimit uint64) vm.Contex
 func NewEVM(state *account.AccountDB, origin common.Address, height uint64, gasLimit uint64) *vm.EVM {
 	return vm.NewEVMWithNFT(EVMContext(origin, height, gasLimit), state, state)
 }
+
+func newBig(v int64) *big.Int { return big.NewInt(v) }
